@@ -62,6 +62,11 @@ def run(check: Check, repo: Repo, tier: str) -> None:
     check.floor("INDEX-GUARD", 15, "constant-position reads on the validation / coercion path")
     T.next_total(check, repo, pmods)
     T.row_alloc(check, repo)
+    T.fragment_recursion_guard(check, repo, [m for m in repo.package_modules("validation") if ".custom" not in m.name])
+    T.leaf_callback_wrap(check, repo)
+    from rules import language_rules as L
+    L.escape_range(check, repo)
+    L.escape_pairs(check, repo)
     from rules import type_witness as TW
     tmods = [m for m in repo.modules.values() if not m.name.endswith(".version") and ".rules.custom" not in m.name]
     TW.type_witness(check, repo, tmods)
